@@ -687,8 +687,17 @@ def explore(run, max_paths=None, max_seconds=None, n_samples=2, timeout_ms=60000
         except Exception as e:
             # an exception escaping the real code (or the oracle) on this path: candidate violation,
             # decided by the concrete replay
-            import traceback
+            import traceback, os
             tb = traceback.extract_tb(e.__traceback__)
+            if not tb or not os.path.realpath(tb[-1].filename).startswith(os.path.realpath(os.environ.get('VERIF_REPO', '/repo')) + os.sep):
+                # raised by harness code itself (innermost frame outside the repository): a harness bug, never a verdict
+                res.status = 'error'
+                res.detail = 'harness exception %s: %s @ %s' % (type(e).__name__, e, ' <- '.join(
+                    '%s:%d' % (f.filename.split('/')[-1], f.lineno) for f in tb[-3:][::-1]))
+                res.queries += ctx.queries
+                res.solver_s += ctx.solver_s
+                _cur = None
+                break
             res.status = 'cex'
             res.failed = 'exception: %s: %s @ %s' % (type(e).__name__, e, ' <- '.join(
                 '%s:%d' % (f.filename.split('/')[-1], f.lineno) for f in tb[-3:][::-1]))
